@@ -22,9 +22,9 @@ theories/ETDRK/Scaling.vos theories/ETDRK/Scaling.vok theories/ETDRK/Scaling.req
 theories/Exec/Codec.vo theories/Exec/Codec.glob theories/Exec/Codec.v.beautified theories/Exec/Codec.required_vo: theories/Exec/Codec.v theories/Base/Scalar.vo theories/Base/FieldLemmas.vo theories/Base/Cplx.vo
 theories/Exec/Codec.vio: theories/Exec/Codec.v theories/Base/Scalar.vio theories/Base/FieldLemmas.vio theories/Base/Cplx.vio
 theories/Exec/Codec.vos theories/Exec/Codec.vok theories/Exec/Codec.required_vos: theories/Exec/Codec.v theories/Base/Scalar.vos theories/Base/FieldLemmas.vos theories/Base/Cplx.vos
-theories/Exec/Entry.vo theories/Exec/Entry.glob theories/Exec/Entry.v.beautified theories/Exec/Entry.required_vo: theories/Exec/Entry.v theories/Base/Scalar.vo theories/Base/FieldLemmas.vo theories/Base/Cplx.vo theories/Exec/Codec.vo theories/Utils/Rollout.vo theories/Gen/ETDRK.vo theories/Gen/Guards.vo theories/Spectral/Symbols.vo theories/Gen/GenericUtils.vo theories/Steppers/Linear.vo theories/Layout/Freq.vo
-theories/Exec/Entry.vio: theories/Exec/Entry.v theories/Base/Scalar.vio theories/Base/FieldLemmas.vio theories/Base/Cplx.vio theories/Exec/Codec.vio theories/Utils/Rollout.vio theories/Gen/ETDRK.vio theories/Gen/Guards.vio theories/Spectral/Symbols.vio theories/Gen/GenericUtils.vio theories/Steppers/Linear.vio theories/Layout/Freq.vio
-theories/Exec/Entry.vos theories/Exec/Entry.vok theories/Exec/Entry.required_vos: theories/Exec/Entry.v theories/Base/Scalar.vos theories/Base/FieldLemmas.vos theories/Base/Cplx.vos theories/Exec/Codec.vos theories/Utils/Rollout.vos theories/Gen/ETDRK.vos theories/Gen/Guards.vos theories/Spectral/Symbols.vos theories/Gen/GenericUtils.vos theories/Steppers/Linear.vos theories/Layout/Freq.vos
+theories/Exec/Entry.vo theories/Exec/Entry.glob theories/Exec/Entry.v.beautified theories/Exec/Entry.required_vo: theories/Exec/Entry.v theories/Base/Scalar.vo theories/Base/FieldLemmas.vo theories/Base/Cplx.vo theories/Exec/Codec.vo theories/Utils/Rollout.vo theories/Gen/ETDRK.vo theories/Gen/Guards.vo theories/Spectral/Symbols.vo theories/Gen/GenericUtils.vo theories/Steppers/Linear.vo theories/Layout/Freq.vo theories/Nonlin/Conv.vo theories/Nonlin/Terms.vo
+theories/Exec/Entry.vio: theories/Exec/Entry.v theories/Base/Scalar.vio theories/Base/FieldLemmas.vio theories/Base/Cplx.vio theories/Exec/Codec.vio theories/Utils/Rollout.vio theories/Gen/ETDRK.vio theories/Gen/Guards.vio theories/Spectral/Symbols.vio theories/Gen/GenericUtils.vio theories/Steppers/Linear.vio theories/Layout/Freq.vio theories/Nonlin/Conv.vio theories/Nonlin/Terms.vio
+theories/Exec/Entry.vos theories/Exec/Entry.vok theories/Exec/Entry.required_vos: theories/Exec/Entry.v theories/Base/Scalar.vos theories/Base/FieldLemmas.vos theories/Base/Cplx.vos theories/Exec/Codec.vos theories/Utils/Rollout.vos theories/Gen/ETDRK.vos theories/Gen/Guards.vos theories/Spectral/Symbols.vos theories/Gen/GenericUtils.vos theories/Steppers/Linear.vos theories/Layout/Freq.vos theories/Nonlin/Conv.vos theories/Nonlin/Terms.vos
 theories/Exec/Extract.vo theories/Exec/Extract.glob theories/Exec/Extract.v.beautified theories/Exec/Extract.required_vo: theories/Exec/Extract.v theories/Exec/Entry.vo
 theories/Exec/Extract.vio: theories/Exec/Extract.v theories/Exec/Entry.vio
 theories/Exec/Extract.vos theories/Exec/Extract.vok theories/Exec/Extract.required_vos: theories/Exec/Extract.v theories/Exec/Entry.vos
@@ -43,12 +43,27 @@ theories/Layout/Freq.vos theories/Layout/Freq.vok theories/Layout/Freq.required_
 theories/Layout/FreqProofs.vo theories/Layout/FreqProofs.glob theories/Layout/FreqProofs.v.beautified theories/Layout/FreqProofs.required_vo: theories/Layout/FreqProofs.v theories/Layout/Freq.vo
 theories/Layout/FreqProofs.vio: theories/Layout/FreqProofs.v theories/Layout/Freq.vio
 theories/Layout/FreqProofs.vos theories/Layout/FreqProofs.vok theories/Layout/FreqProofs.required_vos: theories/Layout/FreqProofs.v theories/Layout/Freq.vos
+theories/Nonlin/Conv.vo theories/Nonlin/Conv.glob theories/Nonlin/Conv.v.beautified theories/Nonlin/Conv.required_vo: theories/Nonlin/Conv.v theories/Base/Scalar.vo theories/Spectral/Symbols.vo theories/Layout/Freq.vo
+theories/Nonlin/Conv.vio: theories/Nonlin/Conv.v theories/Base/Scalar.vio theories/Spectral/Symbols.vio theories/Layout/Freq.vio
+theories/Nonlin/Conv.vos theories/Nonlin/Conv.vok theories/Nonlin/Conv.required_vos: theories/Nonlin/Conv.v theories/Base/Scalar.vos theories/Spectral/Symbols.vos theories/Layout/Freq.vos
+theories/Nonlin/ConvProofs.vo theories/Nonlin/ConvProofs.glob theories/Nonlin/ConvProofs.v.beautified theories/Nonlin/ConvProofs.required_vo: theories/Nonlin/ConvProofs.v theories/Base/Scalar.vo theories/Base/FieldLemmas.vo theories/Spectral/Symbols.vo theories/Layout/Freq.vo theories/Nonlin/Conv.vo
+theories/Nonlin/ConvProofs.vio: theories/Nonlin/ConvProofs.v theories/Base/Scalar.vio theories/Base/FieldLemmas.vio theories/Spectral/Symbols.vio theories/Layout/Freq.vio theories/Nonlin/Conv.vio
+theories/Nonlin/ConvProofs.vos theories/Nonlin/ConvProofs.vok theories/Nonlin/ConvProofs.required_vos: theories/Nonlin/ConvProofs.v theories/Base/Scalar.vos theories/Base/FieldLemmas.vos theories/Spectral/Symbols.vos theories/Layout/Freq.vos theories/Nonlin/Conv.vos
+theories/Nonlin/Terms.vo theories/Nonlin/Terms.glob theories/Nonlin/Terms.v.beautified theories/Nonlin/Terms.required_vo: theories/Nonlin/Terms.v theories/Base/Scalar.vo theories/Spectral/Symbols.vo theories/Layout/Freq.vo theories/Nonlin/Conv.vo
+theories/Nonlin/Terms.vio: theories/Nonlin/Terms.v theories/Base/Scalar.vio theories/Spectral/Symbols.vio theories/Layout/Freq.vio theories/Nonlin/Conv.vio
+theories/Nonlin/Terms.vos theories/Nonlin/Terms.vok theories/Nonlin/Terms.required_vos: theories/Nonlin/Terms.v theories/Base/Scalar.vos theories/Spectral/Symbols.vos theories/Layout/Freq.vos theories/Nonlin/Conv.vos
+theories/Nonlin/TermsProofs.vo theories/Nonlin/TermsProofs.glob theories/Nonlin/TermsProofs.v.beautified theories/Nonlin/TermsProofs.required_vo: theories/Nonlin/TermsProofs.v theories/Base/Scalar.vo theories/Base/FieldLemmas.vo theories/Spectral/Symbols.vo theories/Layout/Freq.vo theories/Nonlin/Conv.vo theories/Nonlin/ConvProofs.vo theories/Nonlin/Terms.vo
+theories/Nonlin/TermsProofs.vio: theories/Nonlin/TermsProofs.v theories/Base/Scalar.vio theories/Base/FieldLemmas.vio theories/Spectral/Symbols.vio theories/Layout/Freq.vio theories/Nonlin/Conv.vio theories/Nonlin/ConvProofs.vio theories/Nonlin/Terms.vio
+theories/Nonlin/TermsProofs.vos theories/Nonlin/TermsProofs.vok theories/Nonlin/TermsProofs.required_vos: theories/Nonlin/TermsProofs.v theories/Base/Scalar.vos theories/Base/FieldLemmas.vos theories/Spectral/Symbols.vos theories/Layout/Freq.vos theories/Nonlin/Conv.vos theories/Nonlin/ConvProofs.vos theories/Nonlin/Terms.vos
 theories/Props/C01.vo theories/Props/C01.glob theories/Props/C01.v.beautified theories/Props/C01.required_vo: theories/Props/C01.v theories/Base/Scalar.vo theories/Base/FieldLemmas.vo theories/Spectral/Symbols.vo theories/Spectral/LinOp.vo theories/Steppers/Linear.vo theories/Steppers/LinearProofs.vo theories/Gen/ETDRK.vo theories/Base/Cplx.vo
 theories/Props/C01.vio: theories/Props/C01.v theories/Base/Scalar.vio theories/Base/FieldLemmas.vio theories/Spectral/Symbols.vio theories/Spectral/LinOp.vio theories/Steppers/Linear.vio theories/Steppers/LinearProofs.vio theories/Gen/ETDRK.vio theories/Base/Cplx.vio
 theories/Props/C01.vos theories/Props/C01.vok theories/Props/C01.required_vos: theories/Props/C01.v theories/Base/Scalar.vos theories/Base/FieldLemmas.vos theories/Spectral/Symbols.vos theories/Spectral/LinOp.vos theories/Steppers/Linear.vos theories/Steppers/LinearProofs.vos theories/Gen/ETDRK.vos theories/Base/Cplx.vos
 theories/Props/C02.vo theories/Props/C02.glob theories/Props/C02.v.beautified theories/Props/C02.required_vo: theories/Props/C02.v theories/Base/Scalar.vo theories/Base/FieldLemmas.vo theories/ETDRK/Phi.vo theories/ETDRK/Order.vo theories/Gen/ETDRK.vo theories/Tie/ETDRKTie.vo theories/Base/Cplx.vo
 theories/Props/C02.vio: theories/Props/C02.v theories/Base/Scalar.vio theories/Base/FieldLemmas.vio theories/ETDRK/Phi.vio theories/ETDRK/Order.vio theories/Gen/ETDRK.vio theories/Tie/ETDRKTie.vio theories/Base/Cplx.vio
 theories/Props/C02.vos theories/Props/C02.vok theories/Props/C02.required_vos: theories/Props/C02.v theories/Base/Scalar.vos theories/Base/FieldLemmas.vos theories/ETDRK/Phi.vos theories/ETDRK/Order.vos theories/Gen/ETDRK.vos theories/Tie/ETDRKTie.vos theories/Base/Cplx.vos
+theories/Props/C03.vo theories/Props/C03.glob theories/Props/C03.v.beautified theories/Props/C03.required_vo: theories/Props/C03.v theories/Base/Scalar.vo theories/Base/FieldLemmas.vo theories/Layout/Freq.vo theories/Layout/FreqProofs.vo theories/DFT/DFT1.vo theories/Nonlin/Conv.vo theories/Nonlin/ConvProofs.vo theories/Nonlin/Terms.vo theories/Nonlin/TermsProofs.vo
+theories/Props/C03.vio: theories/Props/C03.v theories/Base/Scalar.vio theories/Base/FieldLemmas.vio theories/Layout/Freq.vio theories/Layout/FreqProofs.vio theories/DFT/DFT1.vio theories/Nonlin/Conv.vio theories/Nonlin/ConvProofs.vio theories/Nonlin/Terms.vio theories/Nonlin/TermsProofs.vio
+theories/Props/C03.vos theories/Props/C03.vok theories/Props/C03.required_vos: theories/Props/C03.v theories/Base/Scalar.vos theories/Base/FieldLemmas.vos theories/Layout/Freq.vos theories/Layout/FreqProofs.vos theories/DFT/DFT1.vos theories/Nonlin/Conv.vos theories/Nonlin/ConvProofs.vos theories/Nonlin/Terms.vos theories/Nonlin/TermsProofs.vos
 theories/Props/C04.vo theories/Props/C04.glob theories/Props/C04.v.beautified theories/Props/C04.required_vo: theories/Props/C04.v theories/Base/Scalar.vo theories/Base/FieldLemmas.vo theories/Layout/Freq.vo theories/Layout/FreqProofs.vo theories/DFT/DFT1.vo theories/Base/Cplx.vo
 theories/Props/C04.vio: theories/Props/C04.v theories/Base/Scalar.vio theories/Base/FieldLemmas.vio theories/Layout/Freq.vio theories/Layout/FreqProofs.vio theories/DFT/DFT1.vio theories/Base/Cplx.vio
 theories/Props/C04.vos theories/Props/C04.vok theories/Props/C04.required_vos: theories/Props/C04.v theories/Base/Scalar.vos theories/Base/FieldLemmas.vos theories/Layout/Freq.vos theories/Layout/FreqProofs.vos theories/DFT/DFT1.vos theories/Base/Cplx.vos
